@@ -25,6 +25,14 @@ def geo_trace(ck, cells_rmax=None, strata=True):
             raise vlib.InfraError("driver failed rc=%s %s" % (d["rc"], d["err"][-1500:]))
         ck.trace("geo-strata", "Trace_Geo", "Trace.cfg", t2, nchunks=16,
                  what="the same for pentagon disks, cells along the 30 icosahedron edges (distortion vertices) and random cells, r=3..15")
+    if strata:
+        t3 = os.path.join(ck.tdir, "geo_threads.ndjson")
+        d = vlib.run_driver(drv, ["threads", ck.tier, ck.seed, t3])
+        if d["rc"] != 0:
+            raise vlib.InfraError("driver failed rc=%s %s" % (d["rc"], d["err"][-1500:]))
+        ck.trace("geo-concurrent", "Trace_Geo", "Trace.cfg", t3, nchunks=16,
+                 what="the same boundary observations made by 8 threads at the same time on different cells (the answers are functions of "
+                      "the argument whatever other threads are asking)")
     ck.ev.assumptions += ["numeric projections (DESIGN 4.3/6): coordinates -> vertex ids by 1e-12 rad clustering; orientation by the sign of "
                           "triple products in long double; areas by the atan2 triangle formula in long double; arc lengths by atan2; "
                           "tolerances: area rel 1e-4, length rel 1e-7, unit scalings rel 1e-14, area sum 1e-12 sr (>= 10x the worst "
